@@ -27,7 +27,7 @@ def run(ctx):
         for name, over, sample in CFGS[ctx.tier]:
             storelib.StoreRun(ctx, name, over, sample=sample).run(pool, storelib.default_violation(ctx), cov)
         seeds = [ctx.seed * 1000 + i for i in range(4 if ctx.quick() else 24)]
-        storelib.random_runs(ctx, pool, cov, [dict(seed=sd, n=(250 if ctx.quick() else 700), caps=[], cache=0, pcrash=0, pflush=0.1, wal=False,
+        storelib.random_runs(ctx, pool, cov, [dict(seed=sd, n=(250 if ctx.quick() else 700), caps=[], cache=0, pcrash=0, pflush=0.1, pfail=0.3, wal=False,
                                                    maxrows=(12 if i % 2 else 30), bias=("grow" if i % 2 == 0 else ""))
                                               for i, sd in enumerate(seeds)])
         if not ctx.quick():
